@@ -131,6 +131,15 @@ type Opts struct {
 	DBs map[string]dbm.DB
 	// Mempool, if nil a SimpleMempool is used
 	Mempool func(a *app.LinkApplication) types.Mempool
+	// PartSize of the part sets blocks are stored with (0 = the default of the consensus parameters)
+	PartSize int
+}
+
+func (o Opts) partSize() int {
+	if o.PartSize > 0 {
+		return o.PartSize
+	}
+	return types.DefaultConsensusParams().BlockGossip.BlockPartSizeBytes
 }
 
 // Stack is one node's application stack.
@@ -208,7 +217,7 @@ func NewStack(o Opts) (*Stack, error) {
 			Header: &types.Header{Height: 0, Time: 1507737600, GasLimit: types.DefaultConsensusParams().BlockSize.MaxGas, StateHash: stateHash},
 			Data:   &types.Data{}, LastCommit: &types.Commit{},
 		}
-		parts := block.MakePartSet(types.DefaultConsensusParams().BlockGossip.BlockPartSizeBytes)
+		parts := block.MakePartSet(o.partSize())
 		s.BS.SaveBlock(block, parts, nil, nil, &types.TxsResult{TrieRoot: root, StateHash: stateHash})
 		s.Genesis = block.Hash()
 	}
@@ -329,7 +338,7 @@ func (s *Stack) Commit(b *types.Block) (err error) {
 			err = fmt.Errorf("panic: %v", r)
 		}
 	}()
-	parts := b.MakePartSet(types.DefaultConsensusParams().BlockGossip.BlockPartSizeBytes)
+	parts := b.MakePartSet(s.Opts.partSize())
 	_, err = s.App.CommitBlock(b, parts, &types.Commit{BlockID: types.BlockID{Hash: b.Hash(), PartsHeader: parts.Header()}}, false)
 	return err
 }
